@@ -29,18 +29,18 @@ CHECKS["C02"] = dict(level="fault_enumeration", engine="sweep",
 
 CHECKS["C17"] = dict(level="exploration", engine="sweep",
    technique="bounded-exhaustive enumeration of ordered measurement pairs x sharding tapes on the real sharding code, byte-wise comparison of shares",
-   text="Every ordered pair of measurements (full domain when small, edge set otherwise) is sharded with identical randomness and nonce for all seven Prio3 types over 2..254 aggregators and 1..2 proofs (plus small-field instantiations where rejection sampling in share expansion is frequent) and for Poplar1 with all inputs of 1..6 bits and selected longer ones: helpers' Prio3 input shares and their joint-randomness parts, the leader's blind, and both Poplar1 input shares must be byte-identical; the leader's measurement-share difference must equal the difference of the two encodings computed from a separately constructed Type.",
+   text="Every ordered pair of measurements (full domain when small, edge set otherwise) is sharded with identical randomness and nonce for all seven Prio3 types over 2..254 aggregators and 1..2 proofs (plus small-field instantiations where rejection sampling in share expansion is frequent) and for Poplar1 with all inputs of 1..6 bits, inputs of 8..256 bits with a one-bit departure at every position, and 1024/4099-bit inputs with departures at block boundaries: helpers' Prio3 input shares and their joint-randomness parts, the leader's blind, and both Poplar1 input shares must be byte-identical; the leader's measurement-share difference must equal the difference of the two encodings computed from a separately constructed Type.",
    note="Sharding randomness and nonces are a fixed tape alphabet.",
    design="§2 C17")
 CHECKS["C18"] = dict(level="fault_enumeration", engine="sweep",
    technique="fault enumeration over a per-aggregator mismatch matrix (ctx, nonce, key, algorithm id, identifier, handed share; all single and pairwise combinations) on the real verification code in wire and direct-object mode",
-   text="Each aggregator carries its own beliefs (ctx, nonce, verify key, algorithm id, identifier, which share it holds); every single and pairwise departure from the honest configuration is run through the real verify_init / verifier_shares_to_message / verify_next for all Prio3 types with 2..4 aggregators and Poplar1 inner and leaf levels, both with shares decoded from the wire under the aggregator's own identifier and with objects handed over directly; the expected outcome is computed from the final configuration (mismatch => some aggregator must fail; consistent key or, without joint randomness, consistent nonce substitution => honest output shares unchanged).",
+   text="Each aggregator carries its own beliefs (ctx, nonce, verify key, algorithm id, identifier, which share it holds); every single and pairwise departure from the honest configuration is run through the real verify_init / verifier_shares_to_message / verify_next for all Prio3 types with 2..4 aggregators (TurboSHAKE128 and, for four instances, the HMAC-SHA256+AES128 XOF; context departures of a different length and of the same length in the first or last byte; identifiers up to usize::MAX incl. ones aliasing a valid identifier mod 256) and Poplar1 inner and leaf levels (on-path/sibling pair, single on-path and single off-path candidate), both with shares decoded from the wire under the aggregator's own identifier and with objects handed over directly; the expected outcome is computed from the final configuration (mismatch => some aggregator must fail; consistent key or, without joint randomness, consistent nonce substitution => honest output shares unchanged).",
    note="An undetected mismatch by hash/proof collision (~2^-57 per case) would be reported as a violation; single-aggregator instances are excluded; tapes with coinciding seeds are excluded because they turn role swaps into no-ops.",
    design="§2 C18")
 
 CHECKS["C03"] = dict(level="exploration", engine="sweep",
    technique="bounded-exhaustive enumeration of inputs x aggregation parameters x tapes on the real Poplar1 code through every wire encoding, enumeration of admissible parameter histories, heavy-hitters vs exact counting",
-   text="Poplar1 with 1..5-bit inputs: every input, every level, every non-empty sorted prefix set (all 273 parameters for <=3 bits; sets of size <=2 plus the full set for 4..5 bits) is verified by both aggregators with every message re-decoded from its wire encoding and unsharded; batches (all multisets of size 2/3, the full set) are aggregated and compared with plain prefix counting; admissible parameter histories are enumerated with is_agg_param_valid; long inputs up to 65536 bits at levels 0,1,mid,bits-2,bits-1 and around 21845/21846; the iterative heavy-hitters procedure for 3-bit strings over all batches of <=3 strings and thresholds 1..3 equals exact counting.",
+   text="Poplar1 with 1..5-bit inputs: every input, every level, every non-empty sorted prefix set (all 273 parameters for <=3 bits; sets of size <=2 plus the full set for 4..5 bits) is verified by both aggregators with every message re-decoded from its wire encoding and unsharded; batches (all multisets of size 2/3, the full set) are aggregated and compared with plain prefix counting; admissible parameter histories are enumerated with is_agg_param_valid; long inputs up to 65536 bits at levels 0,1,mid,bits-2,bits-1 and around 21845/21846; the iterative heavy-hitters procedure for 3-bit strings over all batches of <=3 strings and thresholds 1..3 equals exact counting. Every batch is also aggregated as two merged sub-batches (must equal the single pass), and every multi-candidate parameter is also presented as an equal in-memory value whose candidate prefixes are stored unaligned (identical output shares required).",
    note="Tapes (sharding randomness, nonce, key, ctx) are a fixed alphabet; bit lengths above 65536 are impossible by the u16 level field.",
    design="§2 C03")
 CHECKS["C10"] = dict(level="exploration", engine="sweep",
@@ -55,7 +55,7 @@ CHECKS["C19"] = dict(level="exploration", engine="sweep",
    design="§2 C19")
 CHECKS["C20"] = dict(level="model_checking", engine="bfs",
    technique="explicit-state enumeration of aggregation-parameter histories with the real is_agg_param_valid as transition guard, vs the specification predicate over Vec<bool>; exhaustive constructor/decoder grammars",
-   text="State = full history of parameters used with a report (all 273 parameters for <=3 bits, every history of length <=2, thorough <=3; 4 bits with sets of size <=2); every candidate is offered to the real is_agg_param_valid and compared with the specification predicate; try_from_prefixes on every list of <=3 prefixes of length 0..3 and at the 65536/65537-bit limit; the decoder on every string of a bounded grammar (levels 0..16, count <=4, 6-value byte alphabet, lying count fields, +-1 byte) against a reference parser, accepted strings must re-encode identically; Prio3/Prio2 single-use rule.",
+   text="State = full history of parameters used with a report (all 273 parameters for <=3 bits, every history of length <=2, thorough <=3; 4 bits with sets of size <=2); every candidate is offered to the real is_agg_param_valid and compared with the specification predicate; try_from_prefixes on every list of <=3 prefixes of length 0..3 and at the 65536/65537-bit limit, each list also with unaligned bit storage (same verdict, equal value, identical encoding and admissibility answers); the decoder on every string of a bounded grammar (levels 0..16, count <=4, 6-value byte alphabet, lying count fields, +-1 byte) against a reference parser, accepted strings must re-encode identically; Prio3/Prio2 single-use rule.",
    note="The transition relation is the library function itself (no separate model); histories need not be admissible themselves.",
    design="§2 C20")
 
@@ -67,19 +67,19 @@ CHECKS["C11"] = dict(level="model_checking", engine="bfs",
 
 CHECKS["C12"] = dict(level="model_checking", engine="stateright",
    technique="stateright explicit-state BFS over a leader/helper model whose every transition calls the real ping-pong routines on values reloaded from their wire encodings; fault-budgeted deliveries (replay, re-typed, corrupted, truncated, extended, empty)",
-   text="States hold each party only as encodings (verifier state, continuation, output), so every step is a reload from persistent form and every stored continuation is decoded and evaluated three times (byte-identical results required). The environment delivers the pending message or, within a fault budget of 2 (thorough 3), any earlier message of either direction, the pending payload under each other variant tag, every single-byte flip, truncation, extension or the empty message. Invariants: fault-free runs exchange exactly Initialize, Continue x (R-1), Finish in alternating directions and finish with the direct-broadcast output shares; faulty messages are refused (instrumented VDAF: immediately; real VDAFs: before any output share is released); refusals change nothing. Subjects: an order- and round-sensitive instrumented VDAF with 1..4 rounds, Prio3Count, Prio3Histogram, Poplar1 inner/leaf, the crate's dummy VDAF with 1..3 rounds. The checker is run twice and state counts compared.",
+   text="States hold each party only as encodings (verifier state, continuation, output), so every step is a reload from persistent form and every stored continuation is decoded and evaluated three times (byte-identical results required). The environment delivers the pending message or, within a fault budget of 2 (thorough 3), any earlier message of either direction, the pending payload under each other variant tag, every single-byte flip, truncation, extension or the empty message, and the well-formed pending message with one opaque inner field lengthened, shortened, emptied or doubled. Invariants: fault-free runs exchange exactly Initialize, Continue x (R-1), Finish in alternating directions and finish with the direct-broadcast output shares; faulty messages are refused (instrumented VDAF: immediately; real VDAFs: before any output share is released); refusals change nothing. Subjects: an order- and round-sensitive instrumented VDAF with 1..6 rounds, Prio3 Count (both measurements), Sum, Histogram, SumVec and a 3-proof SumVec over Field64, Poplar1 at every level of 1..3-bit inputs and selected levels of 9/64/257-bit inputs, the crate's dummy VDAF with 1..5 rounds. The checker is run twice and state counts compared.",
    note="Two parties (the topology's definition). For the dummy VDAF, whose messages are empty, replays are indistinguishable and only kind/undecodable faults are judged. A corrupted-but-decodable payload slipping through a real VDAF has probability ~2^-57.",
    design="§2 C12")
 
 CHECKS["C14"] = dict(level="model_checking", engine="choices",
    technique="exhaustive enumeration of work-stealing outcomes (all steal patterns) of rayon's bridge_producer_consumer through an oracle in a vendored rayon copy, on the real fold/map/reduce pipeline; byte comparison with the serial gadget/type",
-   text="rayon cannot be rebuilt on loom/shuttle, so the only schedule-dependent decisions of the par_chunks().fold().map().reduce() pipeline -- the split budget (thread count) and whether each right child was stolen -- are answered by the explorer in a vendored copy of rayon 1.12.0 (3 hunks). For logical pool sizes {1,2,3,4,8,16}, chunk counts 1..12 (thorough 16) and gadget calls {1,2,3,7}, EVERY steal pattern is executed on a real 1-thread pool with the real consumers and join_context; the bare ParallelSumMultithreaded gadget (junk-prefilled output) must equal ParallelSum, and Prio3{SumVec,Histogram,MultihotCountVec}Multithreaded must produce byte-identical public share, input shares, verifier shares, verifier message and output shares as the serial types under the same tape. A free-running pass on real 2..16-thread pools (sampling, labelled) and a syntactic scan for shared mutable state guard the assumption.",
+   text="rayon cannot be rebuilt on loom/shuttle, so the only schedule-dependent decisions of the par_chunks().fold().map().reduce() pipeline -- the split budget (thread count) and whether each right child was stolen -- are answered by the explorer in a vendored copy of rayon 1.12.0 (3 hunks). For logical pool sizes {1,2,3,4,8,16}, chunk counts 1..12 (thorough 16) and gadget calls {1,2,3,7}, EVERY steal pattern is executed on a real 1-thread pool with the real consumers and join_context; the bare ParallelSumMultithreaded gadget (junk-prefilled output; inner gadget Mul and PolyEval of degree 1..3, whose arity differs from its degree) must equal ParallelSum, the library's multithreaded constructors must denote the same VDAF as their serial twins, and Prio3{SumVec,Histogram,MultihotCountVec}Multithreaded must produce byte-identical public share, input shares, verifier shares, verifier message and output shares as the serial types under the same tape. A free-running pass on real 2..16-thread pools (sampling, labelled) and a syntactic scan for shared mutable state guard the assumption.",
    note="Assumes the outcome depends on the schedule only through which jobs were stolen (true while closures share no mutable state; scan reported in evidence). Memory-ordering effects inside rayon itself are out of scope.",
    design="§2 C14")
 
 CHECKS["C06"] = dict(level="model_checking", engine="bfs",
    technique="exhaustive enumeration of inputs x prefixes x programmed values on the real IDPF; explicit-state enumeration of evaluation histories sharing a cache, with an adversarial cache whose hit/miss answers are enumerated by the choice-tape explorer",
-   text="(1) For bit lengths 1..4 (thorough 5) every input, every prefix of every length, value types Poplar1IdpfValue<Field64>/<Field255>, Field64/Field255, Field255/Field64 and FieldV17 with EVERY programmed value (bits<=3), keys/ctx/nonce from tapes: the two shares add up to the programmed value on the path and to zero off it, with the public share passed through its codec; 64..4096-bit inputs along the path and all siblings. (2) Every sequence of evaluations (all prefixes, length <=4/3/2 for 2/3/4 bits; thorough one deeper) sharing HashMapCache, RingBufferCache(1..4) and an adversarial cache in which every get on a present key is a hit/miss choice (all patterns enumerated: subsumes any evicting or lossy cache) gives bit-identical results to the uncached evaluation, and every node state inserted or returned equals the from-root state.",
+   text="(1) For bit lengths 1..4 (thorough 5) every input, every prefix of every length, value types Poplar1IdpfValue<Field64>/<Field255>, Field64/Field255, Field255/Field64 and FieldV17 with EVERY programmed value (bits<=3), keys/ctx/nonce from tapes: the two shares add up to the programmed value on the path and to zero off it, with the public share passed through its codec; 64..4096-bit inputs along the path and all siblings. (2) Every sequence of evaluations (all prefixes, length <=4/3/2 for 2/3/4 bits; thorough one deeper) sharing HashMapCache, RingBufferCache(1..4) and an adversarial cache in which every get on a present key is a hit/miss choice (all patterns enumerated: subsumes any evicting or lossy cache) gives bit-identical results to the uncached evaluation, and every node state inserted or returned equals the from-root state; prefixes are also presented with unaligned bit storage. (3) Every history of 3 (thorough 4) sessions from {2 ctx} x {2 nonces} x {2 inputs} run on ONE long-lived Idpf object per party yields the same keys, public share and evaluations as fresh objects.",
    note="A cache that returns values it was never given is out of scope (the trait's contract). Keys/ctx/nonce are a tape alphabet.",
    design="§2 C06")
 
@@ -101,7 +101,7 @@ CHECKS["C08"] = dict(level="fault_enumeration", engine="sweep",
    design="§2 C08")
 CHECKS["C13"] = dict(level="model_checking", engine="bfs",
    technique="explicit-state BFS over the aggregation state space (multiset of partial aggregates tagged with the subset they cover) with the real aggregate_init/accumulate/merge/aggregate/unshard as transition function, vs subset sums on residues",
-   text="For 37 instances (Prio3 Count/SumVec/Histogram over deployed and small fields, Prio2, Poplar1 inner and leaf incl. colliding level bytes) and share tuples from extreme values (all residues over GF(17)/GF(97)), every order and tree shape of aggregate_init / From / accumulate / merge is explored; in every state each aggregate must equal the reference sum of its subset, merging the empty aggregate changes nothing, every ill-shaped operand (every wrong length, Inner/Leaf mix, both directions) must be refused leaving the accumulator byte-identical, one-shot aggregate over every permutation and unshard over terminal aggregates equal the single pass.",
+   text="For 42 instances (Prio3 Count/SumVec/Histogram over deployed and small fields, Prio2, Poplar1 inner and leaf incl. colliding level bytes and the longest inputs: 65536 bits at levels 65535/65534) and share tuples from extreme values (all residues over GF(17)/GF(97)), every order and tree shape of aggregate_init / From / accumulate / merge is explored; in every state each aggregate must equal the reference sum of its subset, merging the empty aggregate changes nothing, every ill-shaped operand (every wrong length, Inner/Leaf mix, both directions) must be refused leaving the accumulator byte-identical, one-shot aggregate over every permutation and unshard over terminal aggregates equal the single pass.",
    note="k <= 5 shares with unrestricted tree shapes (6-7 with at most two live aggregates); deployed fields on extreme residues only; state deduplication assumes equal kind+encoding imply equal futures.",
    design="§2 C13")
 CHECKS["C15"] = dict(level="model_checking", engine="choices",
@@ -111,7 +111,7 @@ CHECKS["C15"] = dict(level="model_checking", engine="choices",
    design="§2 C15")
 CHECKS["C16"] = dict(level="fault_enumeration", engine="sweep",
    technique="exhaustive enumeration of an argument lattice (products of up to 3 parameters) for every Result-returning public operation, in worker subprocesses with allocation cap and CPU watchdog, against a harness-side domain predicate",
-   text="Every constructor and Result-returning operation of Prio3, Prio2, Poplar1, the FLP types, dp and idpf is called on a lattice (0,1,2,3, 2^k-1/2^k/2^k+1, p-1/p/p+1, MAX-1, MAX; all 256x256 aggregator/proof counts; measurement, aggregator-id, share-role/length/blind and share-count menus incl. neutral count changes; cross-instance states, shares and messages; ctx lengths up to 2^20; Poplar1 bits 0..usize::MAX): the call must return (Err where the domain predicate says so, Ok where valid), never panic, abort, hang or allocate > 2 GiB; accepted constructors must have computable lengths and carry one honest report end to end.",
+   text="Every constructor and Result-returning operation of Prio3, Prio2, Poplar1, the FLP types, dp and idpf is called on a lattice (0,1,2,3, 2^k-1/2^k/2^k+1, p-1/p/p+1, MAX-1, MAX; all 256x256 aggregator/proof counts; measurement, aggregator-id, share-role/length/blind and share-count menus incl. neutral count changes; cross-instance states, shares and messages; ctx lengths up to 2^20; Poplar1 bits 0..usize::MAX): the call must return (Err where the domain predicate says so, Ok where valid), never panic, abort, hang or allocate > 2 GiB; accepted constructors must have computable lengths and carry one honest report end to end; Flp::query with a gadget query point inside the wire-polynomial domain (1, -1, w, w^2, w^-1, w^(P/2+1)) must be refused for every type.",
    note="Known finding (open): context strings longer than 65527 bytes panic inside the XOF (see known_findings.json). Operations use OS randomness where the library offers no seam; only the outcome class is observed there.",
    design="§2 C16")
 
